@@ -920,7 +920,7 @@ class Stream(Gate):
     name = "stream"
 
     def generate(self, rng, tier):
-        nbase = 5 if tier == "quick" else 40
+        nbase = 5 if tier == "quick" else 20
         rows = 2 if tier == "quick" else 3
         bases = pick_bases(rng, nbase)
         for k, T in enumerate(bases):
@@ -934,7 +934,7 @@ class Stream(Gate):
                     f(X)
                     yield {"T": X, "edits": [label]}
                 # random pairs of departures
-                for _ in range(40 if tier == "quick" else 400):
+                for _ in range(40 if tier == "quick" else 200):
                     (l1, f1), (l2, f2) = rng.sample(deps, 2)
                     X = copyT(B)
                     try:
